@@ -571,9 +571,11 @@ UriBool URI_FUNC(FixAmbiguity)(URI_TYPE(Uri) * uri,
 		return URI_TRUE;
 	}
 
-	if (	/* Case 1: absolute path, empty first segment */
+	if (	/* Case 1: absolute path, empty first segment followed by another segment
+			 * (a lone empty segment is just "/") */
 			(uri->absolutePath
 			&& (uri->pathHead != NULL)
+			&& (uri->pathHead->next != NULL)
 			&& (uri->pathHead->text.afterLast == uri->pathHead->text.first))
 
 			/* Case 2: relative path, empty first and second segment */
